@@ -779,7 +779,12 @@ class HelperInliner:
                          and self.resolve(call, fn, cls, qual) is None):
                     # a helper call on the evaluated-first spine of the statement (e.g. `return helper(x)(self)`): into a temporary first
                     head0 = st.value.value if isinstance(st.value, (ast.YieldFrom, ast.Yield, ast.Await)) and st.value.value is not None else st.value
-                    for lc0 in _leading_calls(head0):
+                    spine = _leading_calls(head0)
+                    # the first argument of a call through a plain (dotted) name is evaluated before anything else of the statement
+                    if isinstance(head0, ast.Call) and dotted(head0.func) is not None and head0.args and isinstance(head0.args[0], ast.Call) \
+                            and not isinstance(head0.args[0], ast.Starred):
+                        spine = _leading_calls(head0.args[0]) + spine
+                    for lc0 in spine:
                         if lc0 is st.value:
                             continue
                         r1 = self.resolve(lc0, fn, cls, qual)
